@@ -233,6 +233,14 @@ class World(object):
         if inv['entry'] == 'template_input':
             par = os.path.join(self.rw, 'in{0}.par'.format(j))
             dump = os.path.join(self.rw, 'dump.pkl')
+            arg = inv.get('dumparg', 'abs')
+            if arg == 'rel':
+                dump = 'dump.pkl'              # the cwd of every execution is the rw directory
+            elif arg == 'path':
+                import pathlib
+                dump = pathlib.Path(dump)
+            elif arg == 'nodir':
+                dump = os.path.join(self.rw, 'no-such-subdir', 'dump.pkl')
             flux, verbose = inv['flux'], inv['verbose']
             return lambda: self._spec1d.template_input(par, dump, flux=flux, verbose=verbose)
         if inv['entry'] == 'window_score':
